@@ -286,6 +286,81 @@ Proof.
   - intros H x i. apply (@in_rows_crows h d cb x ndb Fb), H, (@in_rows_crows h d ca x nda Fa), i.
 Qed.
 
+(* the join output may contain empty children (keys match at one level, nothing joins below):
+   well-formedness without the non-emptiness clause *)
+Fixpoint wfw (h d : nat) (t : ght) : Prop :=
+  match h, t with
+  | 0, Leaf rows => NoDup rows
+  | S h', Inner ch =>
+      NoDup (map fst ch) /\
+      Forall (fun kc => wfw h' (S d) (snd kc) /\
+                        Forall (fun r => head d r = fst kc) (riter h' (snd kc))) ch
+  | _, _ => False
+  end.
+
+Lemma riter_nodup_w h : forall d t, wfw h d t -> NoDup (riter h t).
+Proof.
+  induction h as [|h IH]; intros d t W.
+  - destruct t; [assumption|contradiction].
+  - destruct t as [|ch]; [contradiction|]. destruct W as [nd F]. cbn [riter].
+    induction ch as [|[k c] ch IHch]; [constructor|].
+    inversion nd as [|? ? n nd']; inversion F as [|? ? P F']; subst. cbn [flat_map snd].
+    destruct P as (W & H). cbn [fst snd] in *. apply NoDup_app_disjoint.
+    + apply (IH _ _ W).
+    + apply IHch; assumption.
+    + intros x ix iy. apply in_flat_map in iy as [[k' c'] [i ix']]. cbn in ix'.
+      rewrite Forall_forall in H, F'. specialize (H _ ix).
+      destruct (F' _ i) as (_ & H'). cbn in H'. rewrite Forall_forall in H'.
+      specialize (H' _ ix'). apply n. apply (in_map fst) in i. cbn in i. congruence.
+Qed.
+
+
+Lemma wf_wfw h : forall d t, wf h d t -> wfw h d t.
+Proof.
+  induction h as [|h IH]; intros d t W.
+  - destruct t; [assumption|contradiction].
+  - destruct t as [|ch]; [contradiction|]. destruct W as [nd F]. split; [assumption|].
+    rewrite Forall_forall in *. intros kc i. destruct (F _ i) as (W & _ & H). split; [apply IH, W|exact H].
+Qed.
+
+(* children of a weakly well-formed inner node; only the head clause *)
+Definition okw (h d : nat) (kc : N * ght) : Prop :=
+  wfw h (S d) (snd kc) /\ Forall (fun r => head d r = fst kc) (riter h (snd kc)).
+
+Lemma crows_head_w h d ch k x :
+  Forall (okw h d) ch -> In x (crows h ch k) -> head d x = k.
+Proof.
+  intros F i. unfold crows in i. destruct (cget ch k) as [c|] eqn:G; [|contradiction].
+  apply cget_in in G. rewrite Forall_forall in F. destruct (F _ G) as (_ & H).
+  cbn in H. rewrite Forall_forall in H. apply H, i.
+Qed.
+
+Lemma in_rows_crows_w h d ch x :
+  NoDup (map fst ch) -> Forall (okw h d) ch ->
+  (In x (riter (S h) (Inner ch)) <-> In x (crows h ch (head d x))).
+Proof.
+  intros nd F. rewrite in_riter_inner. split.
+  - intros (k & c & i & ix). pose proof F as F0. rewrite Forall_forall in F0.
+    destruct (F0 _ i) as (_ & H). cbn in H. rewrite Forall_forall in H. specialize (H _ ix).
+    subst k. unfold crows. rewrite (in_cget _ _ _ nd i). assumption.
+  - unfold crows. destruct (cget ch (head d x)) as [c|] eqn:G; [|contradiction].
+    intros ix. exists (head d x), c. split; [apply cget_in, G|assumption].
+Qed.
+
+Lemma incl_rows_crows_w h d ca cb :
+  NoDup (map fst ca) -> Forall (okw h d) ca -> NoDup (map fst cb) -> Forall (okw h d) cb ->
+  (incl (riter (S h) (Inner ca)) (riter (S h) (Inner cb)) <->
+   forall k, incl (crows h ca k) (crows h cb k)).
+Proof.
+  intros nda Fa ndb Fb. split.
+  - intros I k x i. pose proof (@crows_head_w h d ca k x Fa i) as Hk. subst k.
+    apply (@in_rows_crows_w h d cb x ndb Fb), I, (@in_rows_crows_w h d ca x nda Fa), i.
+  - intros H x i. apply (@in_rows_crows_w h d cb x ndb Fb), H, (@in_rows_crows_w h d ca x nda Fa), i.
+Qed.
+
+Lemma has_rows_false h t : has_rows h t = false <-> riter h t = [].
+Proof. unfold has_rows. destruct (riter h t); cbn; split; congruence. Qed.
+
 Definition flagres (sag oag : bool) : pres :=
   match sag, oag with
   | true, false => PSome Gt
@@ -296,28 +371,25 @@ Definition flagres (sag oag : bool) : pres :=
 
 Section Loop.
   Variables (h d : nat) (ca cb : list (N * ght)).
-  Hypothesis IH : forall a b, wf h (S d) a -> wf h (S d) b ->
+  Hypothesis IH : forall a b, wfw h (S d) a -> wfw h (S d) b ->
                     cmp_rel (riter h a) (riter h b) (pcmp h a b).
-  Hypothesis Fa : Forall (child_ok (wf h (S d)) (riter h) d) ca.
-  Hypothesis Fb : Forall (child_ok (wf h (S d)) (riter h) d) cb.
+  Hypothesis Fa : Forall (okw h d) ca.
+  Hypothesis Fb : Forall (okw h d) cb.
 
   Let AB k := incl (crows h ca k) (crows h cb k).
   Let BA k := incl (crows h cb k) (crows h ca k).
   Let EG := exists k, ~ AB k.
   Let EL := exists k, ~ BA k.
 
-  Lemma child_wf ch k c :
-    Forall (child_ok (wf h (S d)) (riter h) d) ch -> cget ch k = Some c ->
-    wf h (S d) c /\ riter h c <> [].
+  Lemma child_w ch k c : Forall (okw h d) ch -> cget ch k = Some c -> wfw h (S d) c.
   Proof.
-    intros F G. apply cget_in in G. rewrite Forall_forall in F.
-    destruct (F _ G) as (W & NE & _). split; assumption.
+    intros F G. apply cget_in in G. rewrite Forall_forall in F. destruct (F _ G) as (W & _). exact W.
   Qed.
 
   Lemma pcmp_loop_spec ks : forall sag oag,
     (forall k, In k ks -> In k (map fst ca) \/ In k (map fst cb)) ->
     (sag = true -> EG) -> (oag = true -> EL) -> ~ (sag = true /\ oag = true) ->
-    let res := pcmp_loop (pcmp h) ca cb ks sag oag in
+    let res := pcmp_loop (has_rows h) (pcmp h) ca cb ks sag oag in
     (exists sag' oag', res = flagres sag' oag' /\ ~ (sag' = true /\ oag' = true) /\
        (sag' = true -> EG) /\ (oag' = true -> EL) /\
        (sag' = false -> sag = false /\ forall k, In k ks -> AB k) /\
@@ -329,12 +401,11 @@ Section Loop.
     - cbn [pcmp_loop]. cbn zeta.
       assert (K' : forall k0, In k0 ks -> In k0 (map fst ca) \/ In k0 (map fst cb))
         by (intros k0 i; apply K; right; assumption).
-      (* what the rest of the loop gives, once this key is accounted for *)
       assert (Step : forall sag1 oag1,
                  (sag1 = true -> EG) -> (oag1 = true -> EL) ->
                  (sag1 = false -> sag = false /\ AB k) -> (oag1 = false -> oag = false /\ BA k) ->
                  let res := if sag1 && oag1 then PNone
-                            else pcmp_loop (pcmp h) ca cb ks sag1 oag1 in
+                            else pcmp_loop (has_rows h) (pcmp h) ca cb ks sag1 oag1 in
                  (exists sag' oag', res = flagres sag' oag' /\ ~ (sag' = true /\ oag' = true) /\
                     (sag' = true -> EG) /\ (oag' = true -> EL) /\
                     (sag' = false -> sag = false /\ forall k0, In k0 (k :: ks) -> AB k0) /\
@@ -353,48 +424,57 @@ Section Loop.
           + intros e. destruct (Po e) as [e1 A]. destruct (Bo e1) as [e0 Bk]. split; [exact e0|].
             intros k0 [<-|i]; [exact Bk|apply A, i]. }
       destruct (cget ca k) as [x|] eqn:Ga, (cget cb k) as [y|] eqn:Gb.
-      + destruct (@child_wf ca k x Fa Ga) as [Wx _], (@child_wf cb k y Fb Gb) as [Wy _].
+      + pose proof (@child_w ca k x Fa Ga) as Wx. pose proof (@child_w cb k y Fb Gb) as Wy.
         pose proof (IH x y Wx Wy) as C.
         assert (Ea : crows h ca k = riter h x) by (unfold crows; rewrite Ga; reflexivity).
         assert (Eb : crows h cb k = riter h y) by (unfold crows; rewrite Gb; reflexivity).
         destruct (pcmp h x y) as [[| |]| |]; cbn [cmp_rel] in C; [| | | |contradiction];
           destruct C as [C1 C2].
-        * (* Equal *) apply Step; try assumption.
+        * apply Step; try assumption.
           -- intros e. split; [exact e|]. unfold AB. rewrite Ea, Eb. exact C1.
           -- intros e. split; [exact e|]. unfold BA. rewrite Ea, Eb. exact C2.
-        * (* Less *) apply Step; try assumption.
+        * apply Step; try assumption.
           -- intros _. exists k. unfold BA. rewrite Ea, Eb. exact C2.
           -- intros e. split; [exact e|]. unfold AB. rewrite Ea, Eb. exact C1.
           -- discriminate.
-        * (* Greater *) apply Step; try assumption.
+        * apply Step; try assumption.
           -- intros _. exists k. unfold AB. rewrite Ea, Eb. exact C2.
           -- discriminate.
           -- intros e. split; [exact e|]. unfold BA. rewrite Ea, Eb. exact C1.
         * right. split; [reflexivity|]. split; exists k; [unfold AB|unfold BA]; rewrite Ea, Eb; assumption.
-      + (* only self has the key *)
-        destruct (@child_wf ca k x Fa Ga) as [_ NE].
+      + (* only self has the key: it counts only if the child has rows *)
         assert (Ea : crows h ca k = riter h x) by (unfold crows; rewrite Ga; reflexivity).
         assert (Eb : crows h cb k = []) by (unfold crows; rewrite Gb; reflexivity).
-        apply Step; try assumption.
-        * intros _. exists k. unfold AB. rewrite Ea, Eb. intros I.
-          destruct (riter h x) as [|r0 l]; [congruence|]. apply (I r0). left. reflexivity.
-        * discriminate.
-        * intros e. split; [exact e|]. unfold BA. rewrite Eb. intros r0 [].
+        destruct (has_rows h x) eqn:Hx.
+        * rewrite orb_true_r. apply Step; try assumption.
+          -- intros _. exists k. unfold AB. rewrite Ea, Eb. intros I.
+             unfold has_rows in Hx. destruct (riter h x) as [|r0 l]; [discriminate|].
+             apply (I r0). left. reflexivity.
+          -- discriminate.
+          -- intros e. split; [exact e|]. unfold BA. rewrite Eb. intros r0 [].
+        * rewrite orb_false_r. apply has_rows_false in Hx. apply Step; try assumption.
+          -- intros e. split; [exact e|]. unfold AB. rewrite Ea, Hx. intros r0 [].
+          -- intros e. split; [exact e|]. unfold BA. rewrite Eb. intros r0 [].
       + (* only other has the key *)
-        destruct (@child_wf cb k y Fb Gb) as [_ NE].
         assert (Ea : crows h ca k = []) by (unfold crows; rewrite Ga; reflexivity).
         assert (Eb : crows h cb k = riter h y) by (unfold crows; rewrite Gb; reflexivity).
-        apply Step; try assumption.
-        * intros _. exists k. unfold BA. rewrite Ea, Eb. intros I.
-          destruct (riter h y) as [|r0 l]; [congruence|]. apply (I r0). left. reflexivity.
-        * intros e. split; [exact e|]. unfold AB. rewrite Ea. intros r0 [].
-        * discriminate.
-      + (* (None, None) => unreachable!(): indeed unreachable *)
-        exfalso. apply cget_none in Ga, Gb. destruct (K k (or_introl eq_refl)); tauto.
+        destruct (has_rows h y) eqn:Hy.
+        * rewrite orb_true_r. apply Step; try assumption.
+          -- intros _. exists k. unfold BA. rewrite Ea, Eb. intros I.
+             unfold has_rows in Hy. destruct (riter h y) as [|r0 l]; [discriminate|].
+             apply (I r0). left. reflexivity.
+          -- intros e. split; [exact e|]. unfold AB. rewrite Ea. intros r0 [].
+          -- discriminate.
+        * rewrite orb_false_r. apply has_rows_false in Hy. apply Step; try assumption.
+          -- intros e. split; [exact e|]. unfold AB. rewrite Ea. intros r0 [].
+          -- intros e. split; [exact e|]. unfold BA. rewrite Eb, Hy. intros r0 [].
+      + exfalso. apply cget_none in Ga, Gb. destruct (K k (or_introl eq_refl)); tauto.
   Qed.
 End Loop.
 
-Theorem pcmp_spec h : forall d a b, wf h d a -> wf h d b ->
+(* partial_cmp relates the row sets correctly for ALL weakly well-formed tries: children
+   without rows (left by drain / COLT get / a join) do not count *)
+Theorem pcmp_spec_w h : forall d a b, wfw h d a -> wfw h d b ->
   cmp_rel (riter h a) (riter h b) (pcmp h a b).
 Proof.
   induction h as [|h IH]; intros d a b Wa Wb.
@@ -407,8 +487,8 @@ Proof.
       assert (Kall : forall k, In k (map fst ca ++ map fst cb) -> In k (map fst ca) \/ In k (map fst cb))
         by (intros k i; apply in_app_iff in i; exact i).
       specialize (L Kall ltac:(discriminate) ltac:(discriminate) ltac:(intros [? ?]; discriminate)). cbn zeta beta in L.
-      pose proof (@incl_rows_crows h d ca cb nda Fa ndb Fb) as IAB.
-      pose proof (@incl_rows_crows h d cb ca ndb Fb nda Fa) as IBA.
+      pose proof (@incl_rows_crows_w h d ca cb nda Fa ndb Fb) as IAB.
+      pose proof (@incl_rows_crows_w h d cb ca ndb Fb nda Fa) as IBA.
       assert (Out : forall ch k, ~ In k (map fst ch) -> crows h ch k = []).
       { intros ch k n. unfold crows. apply cget_none in n. rewrite n. reflexivity. }
       assert (EGn : (exists k, ~ incl (crows h ca k) (crows h cb k)) ->
@@ -430,6 +510,10 @@ Proof.
         destruct s', o'; cbn [flagres cmp_rel]; auto.
       * rewrite E. cbn. auto.
 Qed.
+
+Theorem pcmp_spec h : forall d a b, wf h d a -> wf h d b ->
+  cmp_rel (riter h a) (riter h b) (pcmp h a b).
+Proof. intros d a b Wa Wb. apply (pcmp_spec_w h d); apply wf_wfw; assumption. Qed.
 
 (* ------------------------------------------------------------------ merge_node / Merge::merge *)
 Definition chrows (h : nat) (ch : list (N * ght)) : list row :=
@@ -536,7 +620,7 @@ Section MergeFold.
                  match cget ca (fst kv) with
                  | Some c => let '(c', chg) := merge h c (snd kv) in
                              (creplace ca (fst kv) c', changed || chg)
-                 | None => (ca ++ [kv], true)
+                 | None => (ca ++ [kv], changed || has_rows h (snd kv))
                  end.
 
   Lemma merge_fold rest : forall cur chg,
@@ -557,7 +641,7 @@ Section MergeFold.
       assert (Estep : stepf (cur, chg) (k, v) =
                       match cget cur k with
                       | Some c => let '(c', g) := merge h c v in (creplace cur k c', chg || g)
-                      | None => (cur ++ [(k, v)], true)
+                      | None => (cur ++ [(k, v)], chg || has_rows h v)
                       end) by reflexivity.
       rewrite Estep. clear Estep.
       (* rows of the remaining children never have head k *)
@@ -599,6 +683,9 @@ Section MergeFold.
             reflexivity.
       + (* Vacant: the child is moved in *)
         assert (nin : ~ In k (map fst cur)) by (apply cget_none, G).
+        assert (Hv1 : has_rows h v = true).
+        { unfold has_rows. destruct (riter h v); [congruence|reflexivity]. }
+        rewrite Hv1, orb_true_r.
         destruct (IHr (cur ++ [(k, v)]) true) as (nd2 & F2 & M2 & Fl2).
         * rewrite map_app. cbn. apply NoDup_snoc; assumption.
         * apply Forall_app. split; [assumption|]. constructor; [|constructor].
@@ -629,6 +716,123 @@ Proof.
     split; [split; assumption|split; [exact M'|exact Fl']].
 Qed.
 
+(* ---- merge on weakly well-formed tries: children without rows are moved/merged like any
+   other, but the changed flag is exactly "the row set grew" *)
+Lemma chrows_head_w h d ch x :
+  Forall (okw h d) ch -> In x (chrows h ch) -> In (head d x) (map fst ch).
+Proof.
+  intros F i. apply in_flat_map in i as [[k c] [i ix]]. rewrite Forall_forall in F.
+  destruct (F _ i) as (_ & H). cbn in *. rewrite Forall_forall in H. rewrite (H _ ix).
+  apply (in_map fst) in i. exact i.
+Qed.
+
+Definition merge_okw (h : nat) : Prop :=
+  forall d a b, wfw h d a -> wfw h d b ->
+    wfw h d (fst (merge h a b)) /\
+    (forall x, In x (riter h (fst (merge h a b))) <-> In x (riter h a) \/ In x (riter h b)) /\
+    snd (merge h a b) = negb (subset_b (riter h b) (riter h a)).
+
+Section MergeFoldW.
+  Variables (h d : nat).
+  Hypothesis IH : merge_okw h.
+  Let stepf := fun (acc : list (N * ght) * bool) (kv : N * ght) =>
+                 let '(ca, changed) := acc in
+                 match cget ca (fst kv) with
+                 | Some c => let '(c', chg) := merge h c (snd kv) in
+                             (creplace ca (fst kv) c', changed || chg)
+                 | None => (ca ++ [kv], changed || has_rows h (snd kv))
+                 end.
+
+  Lemma merge_fold_flag rest : forall cur chg,
+    NoDup (map fst cur) -> Forall (okw h d) cur -> NoDup (map fst rest) -> Forall (okw h d) rest ->
+    let res := fold_left stepf rest (cur, chg) in
+    NoDup (map fst (fst res)) /\ Forall (okw h d) (fst res) /\
+    (forall x, In x (chrows h (fst res)) <-> In x (chrows h cur) \/ In x (chrows h rest)) /\
+    snd res = chg || negb (subset_b (chrows h rest) (chrows h cur)).
+  Proof.
+    induction rest as [|[k v] rest IHr]; intros cur chg ndc Fc ndr Fr; cbn zeta.
+    - cbn. split; [assumption|split; [assumption|split]].
+      + intros x. tauto.
+      + rewrite orb_false_r. reflexivity.
+    - inversion ndr as [|? ? nk ndr']; inversion Fr as [|? ? okv Fr']; subst.
+      destruct okv as (Wv & Hv). cbn [fst snd] in Wv, Hv. rewrite Forall_forall in Hv.
+      cbn [fold_left].
+      assert (Estep : stepf (cur, chg) (k, v) =
+                      match cget cur k with
+                      | Some c => let '(c', g) := merge h c v in (creplace cur k c', chg || g)
+                      | None => (cur ++ [(k, v)], chg || has_rows h v)
+                      end) by reflexivity.
+      rewrite Estep. clear Estep.
+      assert (RestHead : forall x, In x (chrows h rest) -> head d x <> k).
+      { intros x i e. apply (@chrows_head_w h d rest x Fr') in i. rewrite e in i. tauto. }
+      destruct (cget cur k) as [c|] eqn:G.
+      + pose proof G as Gin. apply cget_in in Gin.
+        pose proof Fc as Fc0. rewrite Forall_forall in Fc0.
+        destruct (Fc0 _ Gin) as (Wc & Hc). cbn [fst snd] in Wc, Hc. rewrite Forall_forall in Hc.
+        destruct (IH (S d) c v Wc Wv) as (W' & M' & Fl').
+        destruct (merge h c v) as [c' g]. cbn [fst snd] in W', M', Fl'.
+        assert (okc' : okw h d (k, c')).
+        { split; [exact W'|]. cbn [fst snd]. apply Forall_forall. intros x i.
+          apply M' in i as [i|i]; [apply Hc, i|apply Hv, i]. }
+        assert (Rows1 : forall x, In x (chrows h (creplace cur k c')) <->
+                                  In x (chrows h cur) \/ In x (riter h v)).
+        { intros x. apply (@creplace_rows h cur k c c' (riter h v) x G), M'. }
+        destruct (IHr (creplace cur k c') (chg || g)) as (nd2 & F2 & M2 & Fl2);
+          [rewrite creplace_keys; assumption|apply creplace_forall; assumption|assumption|assumption|].
+        split; [exact nd2|split; [exact F2|split]].
+        * intros x. rewrite M2, Rows1, chrows_cons, in_app_iff. tauto.
+        * rewrite Fl2, Fl', chrows_cons, subset_b_app.
+          assert (S1 : subset_b (riter h v) (riter h c) = subset_b (riter h v) (chrows h cur)).
+          { apply subset_b_ext. intros x i. specialize (Hv _ i).
+            pose proof (@in_rows_crows_w h d cur x ndc Fc) as Q. cbn [riter] in Q. fold (chrows h cur) in Q.
+            rewrite Q. unfold crows. rewrite Hv, G. tauto. }
+          assert (S2 : subset_b (chrows h rest) (chrows h (creplace cur k c')) =
+                       subset_b (chrows h rest) (chrows h cur)).
+          { apply subset_b_ext. intros x i. rewrite Rows1. split; [|tauto].
+            intros [j|j]; [assumption|]. exfalso. apply (RestHead x i), Hv, j. }
+          rewrite S1, S2.
+          destruct chg, (subset_b (riter h v) (chrows h cur)), (subset_b (chrows h rest) (chrows h cur));
+            reflexivity.
+      + assert (nin : ~ In k (map fst cur)) by (apply cget_none, G).
+        destruct (IHr (cur ++ [(k, v)]) (chg || has_rows h v)) as (nd2 & F2 & M2 & Fl2).
+        * rewrite map_app. cbn. apply NoDup_snoc; assumption.
+        * apply Forall_app. split; [assumption|]. constructor; [|constructor].
+          split; [exact Wv|]. cbn [fst snd]. apply Forall_forall, Hv.
+        * assumption.
+        * assumption.
+        * split; [exact nd2|split; [exact F2|split]].
+          -- intros x. rewrite M2, chrows_app, chrows_one, chrows_cons, !in_app_iff. tauto.
+          -- rewrite Fl2, chrows_cons, subset_b_app.
+             assert (S2 : subset_b (chrows h rest) (chrows h (cur ++ [(k, v)])) =
+                          subset_b (chrows h rest) (chrows h cur)).
+             { apply subset_b_ext. intros x i. rewrite chrows_app, chrows_one, in_app_iff.
+               split; [|tauto]. intros [j|j]; [assumption|]. exfalso. apply (RestHead x i), Hv, j. }
+             rewrite S2.
+             assert (S1 : subset_b (riter h v) (chrows h cur) = negb (has_rows h v)).
+             { unfold has_rows. destruct (riter h v) as [|r0 l] eqn:E; [reflexivity|]. cbn [is_nil negb].
+               apply (@subset_b_false (r0 :: l) (chrows h cur) r0); [left; reflexivity|].
+               intros i. apply (@chrows_head_w h d cur r0 Fc) in i.
+               rewrite (Hv r0) in i; [tauto|first [left; reflexivity|rewrite E; left; reflexivity]]. }
+             rewrite S1.
+             destruct chg, (has_rows h v), (subset_b (chrows h rest) (chrows h cur)); reflexivity.
+  Qed.
+End MergeFoldW.
+
+Theorem merge_spec_w h : merge_okw h.
+Proof.
+  induction h as [|h IH]; intros d a b Wa Wb.
+  - destruct a as [ra|], b as [rb|]; try contradiction. cbn [merge fst snd wfw riter].
+    apply merge_leaf; assumption.
+  - destruct a as [|ca], b as [|cb]; try contradiction.
+    destruct Wa as [nda Fa], Wb as [ndb Fb].
+    pose proof (@merge_fold_flag h d IH cb ca false nda Fa ndb Fb) as L. cbn zeta in L.
+    cbn [merge].
+    match goal with |- context [fold_left ?f cb (ca, false)] => set (res := fold_left f cb (ca, false)) in * end.
+    destruct res as [ca' changed]. cbn [fst snd] in *. destruct L as (nd' & F' & M' & Fl').
+    cbn [wfw riter]. fold (chrows h ca') (chrows h ca) (chrows h cb).
+    split; [split; assumption|split; [exact M'|exact Fl']].
+Qed.
+
 (* ------------------------------------------------------------------ is_bot, PartialEq *)
 Lemma is_bot_spec h : forall d t, wf h d t -> (is_bot h t = true <-> riter h t = []).
 Proof.
@@ -656,7 +860,51 @@ Proof.
   - intros [x [i e]]. subst k. apply (@chrows_head h d ch x F i).
 Qed.
 
-Lemma peq_spec h : forall d a b, wf h d a -> wf h d b ->
+(* the children that hold rows *)
+Definition livekeys (h : nat) (ch : list (N * ght)) : list N :=
+  map fst (filter (fun kc => has_rows h (snd kc)) ch).
+
+Lemma live_livekeys h ch : NoDup (map fst ch) -> live h ch = length (livekeys h ch).
+Proof.
+  intros nd. unfold live, livekeys. rewrite map_length. f_equal. apply filter_ext_in.
+  intros [k c] i. cbn [fst snd]. rewrite (in_cget _ _ _ nd i). reflexivity.
+Qed.
+
+Lemma livekeys_nodup h ch : NoDup (map fst ch) -> NoDup (livekeys h ch).
+Proof.
+  unfold livekeys. induction ch as [|[k c] ch IH]; intros nd; [constructor|].
+  inversion nd as [|? ? n nd']; subst. cbn [filter snd]. destruct (has_rows h c); cbn [map fst].
+  - constructor; [|apply IH, nd']. intros i. apply n. apply in_map_iff in i as [[k' c'] [e i]].
+    cbn in e. subst k'. apply filter_In in i as [i _]. apply (in_map fst) in i. exact i.
+  - apply IH, nd'.
+Qed.
+
+Lemma in_livekeys h ch k : In k (livekeys h ch) <-> exists c, In (k, c) ch /\ has_rows h c = true.
+Proof.
+  unfold livekeys. rewrite in_map_iff. split.
+  - intros [[k' c] [e i]]. cbn in e. subst k'. apply filter_In in i as [i H]. eauto.
+  - intros [c [i H]]. exists (k, c). split; [reflexivity|]. apply filter_In. auto.
+Qed.
+
+Lemma livekeys_heads h d ch k :
+  Forall (okw h d) ch ->
+  (In k (livekeys h ch) <-> exists x, In x (chrows h ch) /\ head d x = k).
+Proof.
+  intros F. rewrite in_livekeys. pose proof F as F0. rewrite Forall_forall in F0. split.
+  - intros [c [i H]]. destruct (F0 _ i) as (_ & Hd). cbn [fst snd] in Hd.
+    unfold has_rows in H. destruct (riter h c) as [|x l] eqn:E; [discriminate|].
+    exists x. split.
+    + apply in_flat_map. exists (k, c). split; [assumption|]. cbn. rewrite E. left. reflexivity.
+    + rewrite Forall_forall in Hd. apply Hd. left. reflexivity.
+  - intros [x [i e]]. apply in_flat_map in i as [[k' c] [i ix]]. cbn [snd] in ix.
+    destruct (F0 _ i) as (_ & Hd). cbn [fst snd] in Hd. rewrite Forall_forall in Hd.
+    rewrite (Hd _ ix) in e. subst k'. exists c. split; [assumption|].
+    unfold has_rows. destruct (riter h c); [contradiction|reflexivity].
+Qed.
+
+(* == is equality of the row sets, for ALL weakly well-formed tries (children without rows
+   are ignored) *)
+Lemma peq_spec_w h : forall d a b, wfw h d a -> wfw h d b ->
   (peq h a b = true <-> incl (riter h a) (riter h b) /\ incl (riter h b) (riter h a)).
 Proof.
   induction h as [|h IH]; intros d a b Wa Wb.
@@ -666,51 +914,62 @@ Proof.
     + intros [I J] r. apply mem_ext. split; [apply I|apply J].
   - destruct a as [|ca], b as [|cb]; try contradiction.
     destruct Wa as [nda Fa], Wb as [ndb Fb]. cbn [peq].
-    pose proof (@incl_rows_crows h d ca cb nda Fa ndb Fb) as IAB.
-    pose proof (@incl_rows_crows h d cb ca ndb Fb nda Fa) as IBA.
+    rewrite (@live_livekeys h ca nda), (@live_livekeys h cb ndb).
+    pose proof (@incl_rows_crows_w h d ca cb nda Fa ndb Fb) as IAB.
+    pose proof (@incl_rows_crows_w h d cb ca ndb Fb nda Fa) as IBA.
     pose proof Fa as Fa0. pose proof Fb as Fb0. rewrite Forall_forall in Fa0, Fb0.
+    cbn [riter] in *. fold (chrows h ca) (chrows h cb) in *.
     split.
-    + (* equal children => equal row sets *)
-      destruct (Nat.eqb_spec (length ca) (length cb)) as [L|]; [cbn [negb]|discriminate].
+    + (* matching live children => equal row sets *)
+      destruct (Nat.eqb_spec (length (livekeys h ca)) (length (livekeys h cb))) as [L|]; [cbn [negb]|discriminate].
       rewrite forallb_forall. intros H.
-      assert (Each : forall k c, In (k, c) ca -> exists o, cget cb k = Some o /\
-                       incl (riter h c) (riter h o) /\ incl (riter h o) (riter h c)).
-      { intros k c i. specialize (H _ i). cbn [fst] in H.
-        destruct (cget cb k) as [o|] eqn:Gb; [|discriminate]. rewrite (in_cget _ _ _ nda i) in H.
-        exists o. split; [reflexivity|].
-        destruct (Fa0 _ i) as (Wc & _). pose proof (cget_in _ _ Gb) as ib.
-        destruct (Fb0 _ ib) as (Wo & _). apply (IH _ _ _ Wc Wo), H. }
-      assert (KI : incl (map fst ca) (map fst cb)).
-      { intros k i. apply in_map_iff in i as [[k' c] [e i]]. cbn in e. subst k'.
-        destruct (Each _ _ i) as (o & G & _). apply cget_in in G. apply (in_map fst) in G. exact G. }
-      assert (KJ : incl (map fst cb) (map fst ca)).
-      { apply NoDup_length_incl; [assumption|rewrite !map_length; lia|assumption]. }
+      assert (Each : forall k c, In (k, c) ca -> has_rows h c = true ->
+                       exists o, cget cb k = Some o /\
+                         incl (riter h c) (riter h o) /\ incl (riter h o) (riter h c)).
+      { intros k c i Hc. specialize (H _ i). cbn [fst] in H. rewrite (in_cget _ _ _ nda i), Hc in H.
+        cbn [negb] in H. destruct (cget cb k) as [o|] eqn:Gb; [|discriminate].
+        exists o. split; [reflexivity|]. destruct (Fa0 _ i) as (Wc & _).
+        pose proof (cget_in _ _ Gb) as ib. destruct (Fb0 _ ib) as (Wo & _).
+        apply (IH _ _ _ Wc Wo), H. }
+      assert (KI : incl (livekeys h ca) (livekeys h cb)).
+      { intros k i. apply in_livekeys in i as [c [i Hc]]. destruct (Each _ _ i Hc) as (o & G & I & _).
+        apply in_livekeys. exists o. split; [apply cget_in, G|].
+        unfold has_rows in *. destruct (riter h c) as [|x l]; [discriminate|].
+        destruct (riter h o); [exfalso; apply (I x); left; reflexivity|reflexivity]. }
+      assert (KJ : incl (livekeys h cb) (livekeys h ca)).
+      { apply NoDup_length_incl; [apply (@livekeys_nodup h ca nda)|lia|assumption]. }
       split.
-      * apply IAB. intros k x i. unfold crows in *. destruct (cget ca k) as [c|] eqn:Ga; [|contradiction].
-        apply cget_in in Ga. destruct (Each _ _ Ga) as (o & G & I & _). rewrite G. apply I, i.
-      * apply IBA. intros k x i. unfold crows in *. destruct (cget cb k) as [o|] eqn:Gb; [|contradiction].
-        assert (ik : In k (map fst ca)) by (apply KJ; apply cget_in in Gb; apply (in_map fst) in Gb; exact Gb).
-        apply in_map_iff in ik as [[k' c] [e ic]]. cbn in e. subst k'.
-        destruct (Each _ _ ic) as (o' & G & _ & J). rewrite (in_cget _ _ _ nda ic).
-        assert (o' = o) by congruence. subst o'. apply J, i.
-    + (* equal row sets => equal children *)
+      * intros x i. apply in_flat_map in i as [[k c] [i ix]]. cbn [snd] in ix.
+        assert (Hc : has_rows h c = true) by (unfold has_rows; destruct (riter h c); [contradiction|reflexivity]).
+        destruct (Each _ _ i Hc) as (o & G & I & _). apply in_flat_map. exists (k, o).
+        split; [apply cget_in, G|apply I, ix].
+      * intros x i. apply in_flat_map in i as [[k o] [i ix]]. cbn [snd] in ix.
+        assert (Ho : has_rows h o = true) by (unfold has_rows; destruct (riter h o); [contradiction|reflexivity]).
+        assert (lk : In k (livekeys h ca)) by (apply KJ, in_livekeys; eauto).
+        apply in_livekeys in lk as [c [ic Hc]]. destruct (Each _ _ ic Hc) as (o' & G & _ & J).
+        rewrite (in_cget _ _ _ ndb i) in G. inversion G; subst o'.
+        apply in_flat_map. exists (k, c). split; [assumption|apply J, ix].
+    + (* equal row sets => matching live children *)
       intros [I J].
-      assert (KK : forall k, In k (map fst ca) <-> In k (map fst cb)).
-      { intros k. rewrite (@keys_heads h d ca k Fa), (@keys_heads h d cb k Fb). cbn [riter] in I, J.
-        fold (chrows h ca) (chrows h cb) in I, J.
+      assert (KK : forall k, In k (livekeys h ca) <-> In k (livekeys h cb)).
+      { intros k. rewrite (@livekeys_heads h d ca k Fa), (@livekeys_heads h d cb k Fb).
         split; intros [x [i e]]; exists x; (split; [|assumption]); [apply I|apply J]; assumption. }
-      assert (L : length ca = length cb).
-      { rewrite <- (map_length fst ca), <- (map_length fst cb). apply Nat.le_antisymm;
-          apply NoDup_incl_length; try assumption; intros k i; apply KK; assumption. }
+      assert (L : length (livekeys h ca) = length (livekeys h cb)).
+      { apply Nat.le_antisymm; apply NoDup_incl_length; try (apply livekeys_nodup; assumption);
+          intros k i; apply KK; assumption. }
       rewrite L, Nat.eqb_refl. cbn [negb]. apply forallb_forall. intros [k c] i. cbn [fst].
-      assert (ik : In k (map fst cb)) by (apply KK; apply (in_map fst) in i; exact i).
-      apply in_map_iff in ik as [[k' o] [e io]]. cbn in e. subst k'.
-      rewrite (in_cget _ _ _ ndb io), (in_cget _ _ _ nda i).
+      rewrite (in_cget _ _ _ nda i). destruct (has_rows h c) eqn:Hc; [cbn [negb]|reflexivity].
+      assert (lk : In k (livekeys h cb)) by (apply KK, in_livekeys; eauto).
+      apply in_livekeys in lk as [o [io Ho]]. rewrite (in_cget _ _ _ ndb io).
       destruct (Fa0 _ i) as (Wc & _), (Fb0 _ io) as (Wo & _). cbn [snd] in *.
       apply (IH _ _ _ Wc Wo).
       pose proof (proj1 IAB I k) as Ik. pose proof (proj1 IBA J k) as Jk. unfold crows in Ik, Jk.
       rewrite (in_cget _ _ _ nda i), (in_cget _ _ _ ndb io) in Ik, Jk. tauto.
 Qed.
+
+Lemma peq_spec h : forall d a b, wf h d a -> wf h d b ->
+  (peq h a b = true <-> incl (riter h a) (riter h b) /\ incl (riter h b) (riter h a)).
+Proof. intros d a b Wa Wb. apply (peq_spec_w h d); apply wf_wfw; assumption. Qed.
 
 (* ------------------------------------------------------------------ prefix lookups *)
 Lemma skipn_head d : forall (x : row), d < length x -> skipn d x = head d x :: skipn (S d) x.
@@ -804,34 +1063,6 @@ Proof.
 Qed.
 
 (* ------------------------------------------------------------------ joins *)
-(* the join output may contain empty children (keys match at one level, nothing joins below):
-   well-formedness without the non-emptiness clause *)
-Fixpoint wfw (h d : nat) (t : ght) : Prop :=
-  match h, t with
-  | 0, Leaf rows => NoDup rows
-  | S h', Inner ch =>
-      NoDup (map fst ch) /\
-      Forall (fun kc => wfw h' (S d) (snd kc) /\
-                        Forall (fun r => head d r = fst kc) (riter h' (snd kc))) ch
-  | _, _ => False
-  end.
-
-Lemma riter_nodup_w h : forall d t, wfw h d t -> NoDup (riter h t).
-Proof.
-  induction h as [|h IH]; intros d t W.
-  - destruct t; [assumption|contradiction].
-  - destruct t as [|ch]; [contradiction|]. destruct W as [nd F]. cbn [riter].
-    induction ch as [|[k c] ch IHch]; [constructor|].
-    inversion nd as [|? ? n nd']; inversion F as [|? ? P F']; subst. cbn [flat_map snd].
-    destruct P as (W & H). cbn [fst snd] in *. apply NoDup_app_disjoint.
-    + apply (IH _ _ W).
-    + apply IHch; assumption.
-    + intros x ix iy. apply in_flat_map in iy as [[k' c'] [i ix']]. cbn in ix'.
-      rewrite Forall_forall in H, F'. specialize (H _ ix).
-      destruct (F' _ i) as (_ & H'). cbn in H'. rewrite Forall_forall in H'.
-      specialize (H' _ ix'). apply n. apply (in_map fst) in i. cbn in i. congruence.
-Qed.
-
 Definition join_rel (h d nk : nat) (A B : list row) (z : row) : Prop :=
   exists x y, In x A /\ In y B /\ firstn h (skipn d x) = firstn h (skipn d y) /\ z = x ++ skipn nk y.
 
